@@ -1,5 +1,6 @@
 """C20 — assignability is a sound order (and C12's order independence of the name lattice)."""
 import gen_ty
+import sweep
 from mvlib import hexs
 
 
@@ -38,7 +39,8 @@ def run(chk):
     def bad(law, *ls, note=""):
         viol.append((law, ls, note))
 
-    nonnull = [l for l, _, info in U if info["kind"] in ("class", "union", "generic", "generic2", "tuple", "dict", "any", "callable")]
+    nonnull = [l for l, _, info in U if info["kind"] in ("class", "union", "generic", "generic2", "tuple", "dict", "any", "callable")
+               and not any(m.endswith("?") for m in info.get("members", ()))]
     for l, name, info in U:
         k = info["kind"]
         if k != "empty" and sup(l, l) != "1":
@@ -125,6 +127,24 @@ def run(chk):
                 if k is not None:
                     dis += 1
                     chk.broken("correspondence", "Ty model and implementation disagree on union(%s, %s): impl %s model %s" % (labels[k // n], labels[k % n], udumps[k], md[k]))
+    # end to end: `def x: U := <expression of type T>` is accepted exactly when the relation says T may be used
+    # where U is expected (the unifier accepts Any on either side before it asks the relation)
+    S = [gen_ty.syntax(u[1]) for u in U]
+    cells_e2e = [(i, j) for i in range(n) for j in range(n) if S[i] and S[j]]
+    progs = [gen_ty.CLASS_SRC + "def f(a: %s) =>\n    def x: %s := a\n" % (S[j], S[i]) for i, j in cells_e2e]
+    e2e_dis = 0
+    for (i, j), r in zip(cells_e2e, sweep.transpile(chk, progs, annotate_both=False)):
+        kind = r[0][0]
+        if kind == "crash":
+            bad("end-to-end", labels[i], labels[j], note="the pipeline crashed on `def x: %s := a` with a: %s: %s" % (S[i], S[j], r[0][1][:200]))
+            continue
+        want = M[i][j] == "1" or "Any" in (labels[i], labels[j])
+        if M[i][j] == "E":
+            continue
+        if (kind == "ok") != want:
+            e2e_dis += 1
+            bad("end-to-end", labels[i], labels[j], note="`def x: %s := a` with a: %s is %s by the checker but the relation says %s" % (
+                S[i], S[j], "accepted" if kind == "ok" else "rejected (%s)" % " / ".join(m.splitlines()[0] for m in r[0][1][:1]), M[i][j]))
     by_law = {}
     for law, ls, note in viol:
         by_law[law] = by_law.get(law, 0) + 1
@@ -136,6 +156,8 @@ def run(chk):
             chk.violation("input", "law %s fails on %s. %s" % (law, ls, note), case={"kind": "ty", "law": law, "types": list(ls), "classes": gen_ty.CLASS_SRC})
     chk.sample({"universe_size": n, "first": labels[:12], "M[Float][Int]": sup("Float", "Int"), "M[Int][Float]": sup("Int", "Float")})
     chk.cov["correspondence"] = {"model": "MV.isSuperset / NameT.union (Model/Ty.lean) on the class table dumped from the real Context", "evaluations": cells, "disagreements": dis}
+    chk.cov["end_to_end"] = {"programs": len(progs), "disagreements": e2e_dis,
+                             "rule": "every ordered pair of the universe whose two types the grammar can spell, as `def f(a: T) => def x: U := a`"}
     chk.cov["oracle"] = {"spec": "reflexive, transitive (all triples), Any top, nullable rules, class<=ancestors, unrelated, union<=U iff members, union accepts both, union commutative, order independence",
                          "universe": n, "pairs": n * n, "triples_checked": ntri, "law_failures": by_law, "exhaustive": True}
     chk.cov["evaluations"] = n * n
